@@ -35,6 +35,13 @@ def run_op_py(IW, op, v):
             r = {0: lambda: z + x, 1: lambda: z - x, 2: lambda: z * x, 5: lambda: z & x, 6: lambda: z | x,
                  7: lambda: z ^ x}[code]()
             return enc_iw(r)
+        if kind == 'cmp':
+            code, w, o = op[1], op[2], op[3]
+            x = IW(v, w)
+            other = o[1] if o[0] == 'int' else IW(o[1], o[2])
+            r = [lambda: x == other, lambda: x != other, lambda: x < other, lambda: x > other, lambda: x <= other,
+                 lambda: x >= other][code]()
+            return [1 if r is True else (0 if r is False else 7)]
         if kind == 'un':
             code, w, arg = op[1], op[2], op[3]
             x = IW(v, w)
@@ -112,6 +119,10 @@ def coq_op(op):
         return '(OpBin %d %s %s)' % (op[1], vlib.z(op[2]), oc)
     if kind == 'rbin':
         return '(OpRBin %d %s %s)' % (op[1], vlib.z(op[2]), vlib.z(op[3]))
+    if kind == 'cmp':
+        o = op[3]
+        oc = '(OInt %s)' % vlib.z(o[1]) if o[0] == 'int' else '(OIW (mk %s (Some %s)))' % (vlib.z(o[1]), vlib.z(o[2]))
+        return '(OpCmp %d %s %s)' % (op[1], vlib.z(op[2]), oc)
     if kind == 'un':
         return '(OpUn %d %s %s)' % (op[1], vlib.z(op[2]), coq_opt(op[3]))
     if kind == 'slice':
@@ -123,6 +134,45 @@ def coq_op(op):
     if kind == 'parse':
         return '(OpParse %s %d%%nat %d%%nat)' % ('true' if op[1] else 'false', op[2], op[3])
     raise AssertionError(op)
+
+
+def cmp_cases():
+    """comparison operators against ints (negative, wider than the field) and against wrappers of other widths"""
+    out = []
+    for code in range(6):
+        for w in (1, 3, 4, 8):
+            for o in (('int', 0), ('int', 1), ('int', 5), ('int', -1), ('int', -3), ('int', 2 ** w), ('int', 2 ** w + 5), ('int', 255),
+                      ('int', -256 + 5), ('iw', 5, 3), ('iw', 5, 8), ('iw', 9, 16), ('iw', 0, 1), ('iw', 2 ** w - 1, w)):
+                out.append((('cmp', code, w, o), 0, min(2 ** (w + 1) - 1, 63)))
+    return out
+
+
+def corr_cmp(ctx, where='IntegerWrapper.cmp'):
+    """Correspondence of the comparison operators alone (used by the properties whose decode models rely on `==`)."""
+    vlib.import_repo()
+    from pyIRDecoder.integer_wrapper import IntegerWrapper as IW
+    cases = cmp_cases()
+    coq_cases = []
+    for op, lo, hi in cases:
+        exp = []
+        for v in range(lo, hi + 1):
+            r = run_op_py(IW, op, v)
+            exp += [len(r)] + r
+            ctx.count_eval(key=(op, v))
+        coq_cases.append(('(%s, %s, %s)' % (coq_op(op), vlib.z(lo), vlib.z(hi)), exp))
+    bad = vlib.run_model_cases(ctx, 'corr_iw_cmp', 'Require Import PyIR.Base.Result PyIR.IW.IW PyIR.IW.IWRun.',
+                               'run_case', '(op * Z * Z)', coq_cases, shard=120, timeout=600)
+    if bad is None:
+        ctx.report('correspondence', 'model-eval-failed', {}, dict(theorem='PyIR.IW.IWRun.run_case evaluation'), found_input=False)
+        return
+    for i, model_out in bad:
+        op, lo, hi = cases[i]
+        exp = coq_cases[i][1]
+        v = lo + next((k for k in range(0, min(len(exp), len(model_out)), 2) if exp[k:k + 2] != model_out[k:k + 2]), 0) // 2
+        ctx.report(where, 'comparison-model-disagrees', dict(op=[str(x) for x in op]),
+                   dict(call='IntegerWrapper comparison', op=[str(x) for x in op], v=v,
+                        operators=['==', '!=', '<', '>', '<=', '>='][op[1]], impl=exp[:16], model=model_out[:16]))
+    ctx.extra['cmp_correspondence'] = dict(descriptors=len(cases), disagreements=len(bad))
 
 
 def gen_cases(ctx):
@@ -165,6 +215,7 @@ def gen_cases(ctx):
                 if code in (8, 9) and o[1] > 40:
                     continue
                 cases.append((('bin', code, w, o), 0, 2 ** (w + 1) - 1))
+    cases += cmp_cases()
     for code in (0, 1, 2, 5, 6, 7):
         for w in (1, 4, 6):
             for zc in (0, 1, 6, -2, 300):
